@@ -829,7 +829,11 @@ class S3Transfer:
             self._osutil.remove_file(temp_filename)
             raise
         else:
-            self._osutil.rename_file(temp_filename, filename)
+            try:
+                self._osutil.rename_file(temp_filename, filename)
+            except Exception:
+                self._osutil.remove_file(temp_filename)
+                raise
 
     def _download_file(
         self, bucket, key, filename, object_size, extra_args, callback
